@@ -201,6 +201,9 @@ func makeIntrinsics() map[string]intrinsicFn {
 	m[apiName("Implies")] = func(fr *frame, a []value) value {
 		return fr.p.tc.Or(fr.p.tc.Not(a[0].(*Term)), a[1].(*Term))
 	}
+	m[apiName("IteByte")] = func(fr *frame, a []value) value {
+		return fr.p.tc.Ite(a[0].(*Term), a[1].(*Term), a[2].(*Term))
+	}
 	m[apiName("IteInt64")] = func(fr *frame, a []value) value {
 		return fr.p.tc.Ite(a[0].(*Term), a[1].(*Term), a[2].(*Term))
 	}
